@@ -119,7 +119,7 @@ pub fn check_delivery(w: &World, plan: &Plan, prop: &str, is_async: bool) -> Opt
                 format!("send #{}: {} bytes put on the wire at offset {} (expected {} bytes at {})", i, a.accepted, a.sink_start, a.frame_len, off),
             );
         }
-        let on_wire = &w.pipe.sink[a.sink_start..a.sink_start + a.accepted];
+        let on_wire = &w.pipe.sink[a.sink_start..a.sink_start + a.frame.len().min(a.accepted)];
         if on_wire != &a.frame[..] {
             let at = on_wire.iter().zip(a.frame.iter()).position(|(x, y)| x != y).unwrap_or(0);
             return v(prop, "3-wire", "wire-bytes", "send", format!("send #{}: wire differs from the frame the sender held at byte {}", i, at));
@@ -255,7 +255,8 @@ pub fn check_faults(w: &World, plan: &Plan, prop: &str, _is_async: bool) -> Opti
         if a.accepted > a.frame_len {
             return v(prop, "S1-sink", "wire-length", "send", format!("attempt #{}: {} bytes accepted for a {}-byte frame", i, a.accepted, a.frame_len));
         }
-        if w.pipe.sink[off..off + a.accepted] != a.frame[..a.accepted] {
+        let known = a.accepted.min(a.frame.len());
+        if w.pipe.sink[off..off + known] != a.frame[..known] {
             return v(prop, "S1-sink", "wire-bytes", "send", format!("attempt #{}: bytes on the wire are not a prefix of the frame", i));
         }
         if matches!(a.result, Some(Ok(()))) && a.accepted != a.frame_len {
